@@ -23,7 +23,7 @@ import numpy as np
 
 MAX_OUT = 6000
 MAX_TERMS = 60000
-MAX_PROGRAM_TERMS = 120000  # whole-program runs: sparse-table entries sent to the driver
+MAX_PROGRAM_TERMS = 40000  # whole-program runs: sparse-table entries sent to the driver
 
 
 class Unsupported(Exception):
@@ -153,11 +153,27 @@ def _scatter_rows(op_shape, upd_shape, idx, p, M, add):
         if add:
             rows[e].append((1, uflat, 1.0))
         else:
-            if e in written:
-                raise Unsupported("scatter with duplicate indices (result is implementation defined)")
+            # duplicate indices: XLA leaves the winner unspecified; the CPU back-end applies the updates in order (the last
+            # one wins), which is what the comparison with the primitive pins - any winner gives a sparse row
             written[e] = True
             rows[e] = [(1, uflat, 1.0)]
     return rows, tuple(op_shape)
+
+
+def _agree(lean, ref, dtype):
+    """inexact comparisons (fft, complex products, single precision): error relative to the LARGEST entry of the result
+    (a floor of 1 on the scale): 2e-5 for 32-bit results - an fft of n entries carries O(eps log n) of the largest
+    entry in every entry - and 1e-11 for 64-bit ones"""
+    lean, ref = np.asarray(lean, dtype=np.complex128).ravel(), np.asarray(ref, dtype=np.complex128).ravel()
+    if lean.shape != ref.shape:
+        return False
+    if ref.size == 0:
+        return True
+    if not (np.all(np.isfinite(lean)) and np.all(np.isfinite(ref))):
+        return bool(np.array_equal(np.isfinite(lean), np.isfinite(ref)))
+    single = np.dtype(dtype).itemsize <= (8 if np.dtype(dtype).kind == "c" else 4)
+    scale = 1.0 + float(np.max(np.abs(ref)))
+    return float(np.max(np.abs(lean - ref))) / scale <= (2e-5 if single else 1e-11)
 
 
 def rows_of(inst):
@@ -202,8 +218,8 @@ def rows_of(inst):
     if name == "transpose":
         return single(np.transpose(C[0], p["permutation"]))
     if name == "reshape":
-        if p.get("dimensions") is not None:
-            raise Unsupported("reshape with dimensions")
+        if p.get("dimensions") is not None:  # the operand's dimensions are permuted first (XLA reshape with `dimensions`)
+            return single(np.transpose(C[0], tuple(p["dimensions"])).reshape(p["new_sizes"]))
         return single(C[0].reshape(p["new_sizes"]))
     if name == "squeeze":
         return single(np.squeeze(C[0], axis=tuple(p["dimensions"])))
@@ -336,7 +352,7 @@ def compare(inst, rng, model):
             out.append(np.asarray(common.b2fs(model.call("applydesc", rows=wr, xs=xs)), dtype=np.float64))
         lean = out[0] + 1j * out[1]
         ref = np.asarray(got, dtype=np.complex128).ravel()
-        if lean.shape != ref.shape or not np.allclose(lean, ref, rtol=1e-6 if np.dtype(got.dtype).itemsize <= 8 else 1e-11, atol=1e-6 if np.dtype(got.dtype).itemsize <= 8 else 1e-11):
+        if not _agree(lean, ref, got.dtype):
             return "mismatch", {"what": "value (complex coefficients)", "jax": [repr(complex(v)) for v in ref[:6]], "lean": [repr(complex(v)) for v in lean[:6]]}
         return "ok", None
     parts = [("re", np.real)] + ([("im", np.imag)] if any(np.iscomplexobj(d) for d in data) or np.iscomplexobj(got) else [])
@@ -497,8 +513,6 @@ def supported(inst) -> bool:
     if any(np.dtype(inst["avals"][i][1]).kind not in "fc" for i in inst["dpos"]):
         return False
     if cls == ir.LINALL:
-        if name == "reshape" and inst["params"].get("dimensions") is not None:
-            return False
         if name == "fft":
             return getattr(inst["params"]["fft_type"], "name", str(inst["params"]["fft_type"])).split(".")[-1] in ("FFT", "IFFT", "RFFT")
         return name in _CHEAP_LIN
@@ -626,7 +640,6 @@ def compare_any(inst, rng, model):
                      sizes=[int(got.size)])
     lean = np.array([complex(common.b2f(t[0]), common.b2f(t[1])) for t in res[0]], dtype=np.complex128)
     ref = np.asarray(got, dtype=np.complex128).ravel()
-    tol = 1e-5 if np.dtype(got.dtype).itemsize <= (8 if np.iscomplexobj(got) else 4) else 1e-11
-    if lean.shape != ref.shape or not np.allclose(lean, ref, rtol=tol, atol=tol):
+    if not _agree(lean, ref, got.dtype):
         return "mismatch", {"what": "value", "jax": [repr(complex(v)) for v in ref[:6]], "lean": [repr(complex(v)) for v in lean[:6]]}
     return "ok", None
